@@ -82,7 +82,7 @@ CLAIMED.update({
             "Trusted: roadmap snapshot accessor, sample budget hook, scripted / recording sampler.",
             "5/C18", "oxv"),
     "C19": ("Hypothesis-generated scenarios run through oxmpl_py and through the Rust core (persistent reference server), compared bit for bit; wrapper constructors over the C12 lattice",
-            "300 (quick) / 5000 (thorough) generated scenarios over the six from_* variants x {RRT, RRTConnect, RRTStar}: outcome class and every float of the path as 64-bit patterns against the Rust core run on the same PlanCase; PRM paths checked for soundness against the Python callbacks (dense re-check through the core's interpolation); about 2000 wrapper constructor / getter / distance comparisons over the special-value lattice (ValueError <=> core Err).",
+            "1600 (quick) / 16000 (thorough) generated scenarios (8 worker processes) over the six from_* variants x {RRT, RRTConnect, RRTStar}: outcome class and every float of the path as 64-bit patterns against the Rust core run on the same PlanCase; PRM paths checked for soundness against the Python callbacks (dense re-check through the core's interpolation); about 2000 wrapper constructor / getter / distance comparisons over the special-value lattice (ValueError <=> core Err).",
             "Callbacks restricted to comparisons and the wrapped space.distance so that both languages compute bit-identical functions; examples that time out on either side are discarded and counted (run is inconclusive above 25%).",
             "5/C19", "py"),
     "C20": ("Hypothesis-generated fault plans (raise / None / non-bool, by region or at the k-th call) on validity and goal callbacks; metamorphic comparison with callbacks returning False at the same points",
